@@ -255,3 +255,20 @@ func coqZ(n int64) string {
 func coqList(items []string) string { return "[" + strings.Join(items, "; ") + "]" }
 func coqSome(s string) string       { return "(Some " + s + ")" }
 func coqPair(a ...string) string    { return "(" + strings.Join(a, ", ") + ")" }
+
+func newRand(seed int64) *rand.Rand { return rand.New(rand.NewSource(seed)) }
+
+// replayField extracts a top-level field of the "case" object of a replay file as text.
+func replayField(path, field string) string {
+	b, err := os.ReadFile(path)
+	if err != nil {
+		return ""
+	}
+	var wrap struct {
+		Case map[string]json.RawMessage `json:"case"`
+	}
+	if json.Unmarshal(b, &wrap) != nil {
+		return ""
+	}
+	return strings.Trim(string(wrap.Case[field]), `"`)
+}
